@@ -334,9 +334,6 @@ class Inliner:
         else:
             ret_name = None
         single_final = len(returns) == 0 or (len(returns) == 1 and body and body[-1] is returns[0])
-        if not single_final and any(_in_loop(body, r) for r in returns):
-            self.counter -= 1
-            return None
 
         def result_store(value: Optional[ast.AST], at: ast.AST) -> List[ast.stmt]:
             if ret_name is None:
@@ -353,9 +350,9 @@ class Inliner:
                 body = body + result_store(None, call)
             new_body = body or [ast.copy_location(ast.Pass(), call)]
         else:
-            body = _replace_returns(body, lambda r: result_store(r.value, r) + [ast.copy_location(ast.Break(), r)])
+            body = _replace_returns(body, lambda r: result_store(r.value, r) + [_inline_return(r)])
             if not _ends_in_jump(body):
-                body = body + result_store(None, call) + [ast.copy_location(ast.Break(), call)]
+                body = body + result_store(None, call) + [_inline_return(call)]
             loop = ast.While(test=ast.Constant(value=True), body=body, orelse=[])
             loop.asl_once = True  # a block that is left by ``break``, never iterated
             new_body = [ast.copy_location(loop, call)]
@@ -371,6 +368,12 @@ class Inliner:
 
 
 # ---------------------------------------------------------------------- helpers
+def _inline_return(at: ast.AST) -> ast.Break:
+    b = ast.copy_location(ast.Break(), at)
+    b.asl_inline_return = True  # leaves the inlined block (asl.cfg), whatever loops it sits in
+    return b
+
+
 def _is_field_chain(e: ast.AST) -> bool:
     while isinstance(e, ast.Attribute):
         e = e.value
